@@ -255,7 +255,7 @@ def run(ck):
                         ck.hist("start_d:%s" % ("ok" if o[1] else "fail%d" % o[2]))
                     if o[0] in (L.OUT_CANCEL_REQ, L.OUT_CANCEL_TIMER, L.OUT_CANCEL_PROC):
                         ck.hist("cancel:%d:%s" % (o[0], o[1] if len(o) > 1 else ""))
-        diffs, mo = ck.correspond(MODEL, MODULE, cases, impl, label,
+        diffs, mo = L.correspond(ck, MODEL, MODULE, cases, impl, label,
                                   nontrivial=lambda c, o: (L.OUT_CANCEL_REQ in o or L.OUT_CANCEL_TIMER in o or L.OUT_CANCEL_PROC in o or L.OUT_SHUTDOWN_D in o), describe=describe)
         for idx, ((cfg, evs), (drv, obs)) in enumerate(zip(items, runs)):
             bad = monitor(cfg, evs, drv.trace, obs)
@@ -292,7 +292,7 @@ def run(ck):
                     break
             if not found:
                 cfg, evs = items[diffs[0]]
-                small = L.shrink(cfg, evs, lambda c, e: L.run_impl(c, e).trace != ck.model(MODEL, [L.case_line(c, e)])[0])
+                small = L.shrink(cfg, evs, lambda c, e: L.canon_trace(L.run_impl(c, e).trace) != L.canon_trace(ck.model(MODEL, [L.case_line(c, e)])[0]))
                 d2 = L.run_impl(cfg, small)
                 m2 = ck.model(MODEL, [L.case_line(cfg, small)])[0]
                 k, a, b = L.first_difference(d2.trace, m2)
